@@ -721,6 +721,33 @@ func TestVerifC15Staged(t *testing.T) {
 	runChildBatches(t, rec, seed, total, batch)
 }
 
+// c15AllocAlone runs case idx of the seed's sequence in a child of its own and returns what it allocated.
+func c15AllocAlone(bin, dir string, seed uint64, idx int) (uint64, bool) {
+	journal := filepath.Join(dir, fmt.Sprintf("j-alone-%d.txt", idx))
+	results := filepath.Join(dir, fmt.Sprintf("r-alone-%d.txt", idx))
+	os.Remove(journal)
+	os.Remove(results)
+	cmd := execCommand(bin, "-test.run", "^TestVerifC15Child$", "-test.timeout", "120s")
+	cmd.Env = append(os.Environ(), fmt.Sprintf("VERIF_C15_CHILD=%d %d %d", seed, idx, idx+1), "VERIF_C15_JOURNAL="+journal, "VERIF_C15_RESULTS="+results, "VERIF_OUT=")
+	var outb bytes.Buffer
+	cmd.Stdout, cmd.Stderr = &outb, &outb
+	cmd.Run()
+	for _, line := range readLines(results) {
+		parts := splitN(line, "\t", 7)
+		if len(parts) < 7 {
+			continue
+		}
+		var i int
+		var alloc uint64
+		fmt.Sscan(parts[0], &i)
+		fmt.Sscan(parts[2], &alloc)
+		if i == idx {
+			return alloc, true
+		}
+	}
+	return 0, false
+}
+
 func runChildBatches(t *testing.T, rec *verifkit.Recorder, seed uint64, total, batch int) {
 	dir := verifkit.ScratchDir(t, "scratch")
 	bin := os.Getenv("VERIF_TESTBIN")
@@ -773,6 +800,14 @@ func runChildBatches(t *testing.T, rec *verifkit.Recorder, seed uint64, total, b
 			}
 			bound := uint64(16<<20) + 16*uint64(nbytes)
 			if alloc > bound {
+				// Allocation is measured for the whole child process; a goroutine that an earlier
+				// case of the batch left behind may allocate during this one. The verdict is taken
+				// from a child that runs this case alone.
+				if a2, ok := c15AllocAlone(bin, dir, seed, idx); ok && a2 <= bound {
+					rec.Class("allocation-of-another-case-not-attributed")
+					rec.Note("case %d of seed %d (%s): %d bytes measured inside its batch, %d alone", idx, seed, cs, alloc, a2)
+					continue
+				}
 				rec.Fail(t, "alloc-out-of-proportion:"+side+":"+mut, fmt.Sprintf("the %s allocated %d bytes while %d bytes were exchanged (case %d of seed %d: %s; result: %s)", side, alloc, nbytes, idx, seed, cs, errText))
 				continue
 			}
